@@ -632,7 +632,9 @@ func (f *c13IbSock) ReadBatch(msgs []ipv6.Message, _ int) (int, error) {
 	for i := 0; i < n; i++ {
 		msgs[i].N = copy(msgs[i].Buffers[0], f.next[i])
 		msgs[i].Addr = f.src[i]
-		msgs[i].NN = 0
+		// the control message of THIS datagram (in production: its original destination): derived from the
+		// payload so that the model can tell which datagram's control message Take hands out
+		msgs[i].NN = copy(msgs[i].OOB, []byte{f.next[i][0], byte(len(f.next[i])), 77})
 	}
 	return n, nil
 }
@@ -700,7 +702,7 @@ func c13RunIb(t *testing.T, stats *VStats) {
 				if i >= got && i < size {
 					continue // a slot without a datagram: production never takes it
 				}
-				pb, src, _, ok := rd.Take(i)
+				pb, src, oob, ok := rd.Take(i)
 				out := "none"
 				if ok {
 					var bs []int
@@ -716,7 +718,11 @@ func c13RunIb(t *testing.T, stats *VStats) {
 							heldOK = 0
 						}
 					}
-					out = fmt.Sprintf("ok data=%s alias=%d held_ok=%d", c13JoinInts(bs), alias, heldOK)
+					var ob []int
+					for _, v := range oob {
+						ob = append(ob, int(v))
+					}
+					out = fmt.Sprintf("ok data=%s oob=%s alias=%d held_ok=%d", c13JoinInts(bs), c13JoinInts(ob), alias, heldOK)
 					if src.Port() != uint16(4000+i) {
 						out += " src=wrong"
 					}
@@ -858,9 +864,59 @@ func c13B(b bool) string {
 	return "0"
 }
 
+// c13PortRanges: the set {p | in(p)} over all 65536 ports as "a,b-c,..." ("-" = empty)
+func c13PortRanges(in func(uint16) bool) string {
+	var parts []string
+	for p := 0; p < 65536; {
+		if !in(uint16(p)) {
+			p++
+			continue
+		}
+		q := p
+		for q+1 < 65536 && in(uint16(q+1)) {
+			q++
+		}
+		if q == p {
+			parts = append(parts, fmt.Sprint(p))
+		} else {
+			parts = append(parts, fmt.Sprintf("%d-%d", p, q))
+		}
+		p = q + 1
+	}
+	if len(parts) == 0 {
+		return "-"
+	}
+	return strings.Join(parts, ",")
+}
+
+// the two port sets are tuning constants: read off the production predicates (the model checks the rule
+// "one of the two ports is in the set", and that ordered ingress is the complement of direct dispatch)
+var c13SniffRangesCache string
+
+func c13SniffPortRanges() string {
+	if c13SniffRangesCache == "" {
+		c13SniffRangesCache = c13PortRanges(udpPortAllowsSniffing)
+	}
+	return c13SniffRangesCache
+}
+
+func c13DirectPortRanges() string {
+	direct := func(sp, dp uint16) bool {
+		dd := UdpFlowDecision{Key: NewUdpFlowKey(netip.AddrPortFrom(netip.AddrFrom4([4]byte{10, 0, 0, 1}), sp),
+			netip.AddrPortFrom(netip.AddrFrom4([4]byte{10, 0, 0, 2}), dp))}
+		return dd.ShouldUseGoroutineDirectly()
+	}
+	neutral := uint16(1)
+	for direct(neutral, neutral) {
+		neutral++
+	}
+	return c13PortRanges(func(p uint16) bool { return direct(p, neutral) })
+}
+
 func c13RunKey(t *testing.T, stats *VStats) {
 	s := VOpenStream("c13_key")
 	defer s.Close()
+	s.Emit(fmt.Sprintf("key consts %s %s", c13SniffPortRanges(), c13DirectPortRanges()), "ok")
 	r := NewVRand(VSeed() + 303)
 	n := 8000
 	if VThorough() {
